@@ -686,7 +686,7 @@ PLANS = {"C14": c14}
 
 # ================================================================ C15: TCP mux
 
-MUX_BEHAVIOURS = ["known", "unknown", "late", "garbage", "nonbinding", "nouser", "oversize", "silent", "earlyclose"]
+MUX_BEHAVIOURS = ["known", "unknown", "late", "garbage", "nonbinding", "nouser", "oversize", "silent", "earlyclose", "stalled"]
 MUX_CLASSES = ["known", "unknown", "garbage", "silent", "earlyclose"]     # one bad-first-frame class stands for all four in the quick model check
 MUX_INVARIANTS = ["TypeOK", "RoutedByFirstUfrag", "RepliesOnSameConn", "BadFirstFrameClosed", "ProvisionalExpires", "WgCounts",
                   "CloseCompletes", "CloseProgress", "NoStaleRemoval"]
@@ -1078,6 +1078,17 @@ MUX_DIRECTED = [
     {"beh": ["known", "silent", "silent"], "rb": 1, "later": 1, "tag": "directed second Close racing the first",
      "acts": [{"ev": "Dial", "c": 1, "w": True}, {"ev": "Send", "c": 1, "w": True}, {"ev": "Dial", "c": 2, "w": True},
               {"ev": "Close", "w": True}, {"ev": "Close", "w": False}, {"ev": "Advance", "w": True}, {"ev": "Advance", "w": True}]},
+    {"beh": ["stalled", "known", "stalled"], "rb": 1, "later": 1, "tag": "directed first frame that stalls after its length prefix: deadline, then Close with one still stalled",
+     "acts": [{"ev": "Dial", "c": 1, "w": True}, {"ev": "Dial", "c": 2, "w": True}, {"ev": "Send", "c": 2, "w": True}, {"ev": "Get", "u": "u1", "w": True},
+              {"ev": "Advance", "w": True}, {"ev": "Advance", "w": True}, {"ev": "Dial", "c": 3, "w": True}, {"ev": "Close", "w": True},
+              {"ev": "Advance", "w": True}, {"ev": "Advance", "w": True}]},
+    {"beh": ["known", "late", "unknown"], "rb": 1, "later": 1, "tag": "directed replies to addresses that are not attached to the handle (one attached connection, then two)",
+     "acts": [{"ev": "Dial", "c": 1, "w": True}, {"ev": "Send", "c": 1, "w": True}, {"ev": "Get", "u": "u1", "w": True},
+              {"ev": "Dial", "c": 2, "w": True}, {"ev": "Dial", "c": 3, "w": True}, {"ev": "Send", "c": 3, "w": True}, {"ev": "Get", "u": "u9", "w": True},
+              {"ev": "Reply", "h": 1, "c": 2, "w": True}, {"ev": "Reply", "h": 1, "c": 3, "w": True}, {"ev": "Reply", "h": 2, "c": 1, "w": True},
+              {"ev": "Reply", "h": 1, "c": 1, "w": True}, {"ev": "Send", "c": 2, "w": True}, {"ev": "Reply", "h": 1, "c": 2, "w": True},
+              {"ev": "Reply", "h": 1, "c": 3, "w": True}, {"ev": "CClose", "c": 1, "w": True}, {"ev": "Reply", "h": 1, "c": 1, "w": True},
+              {"ev": "Reply", "h": 2, "c": 3, "w": True}]},
     {"beh": ["known", "oversize", "nouser"], "rb": 1, "later": 1, "tag": "directed close with clients in every phase",
      "acts": [{"ev": "Dial", "c": 1, "w": True}, {"ev": "Dial", "c": 2, "w": True}, {"ev": "Dial", "c": 3, "w": False},
               {"ev": "Close", "w": False}]},
